@@ -1326,7 +1326,16 @@ class _FileMover:
     def __init__(self):
         """Initialize a new FileMover to track file operations."""
         self.past_renames = []
+        self.past_modes = []
         self.pending_deletions = []
+
+    def note_mode(self, path):
+        """Remember the permission bits of a file that is about to be chmod'ed
+        in place, so that rollback() can restore them."""
+        try:
+            self.past_modes.append((path, os.lstat(path).st_mode & 0o7777))
+        except OSError:
+            pass
 
     def rename(self, from_, to):
         """Rename a file from one path to another."""
@@ -1352,6 +1361,14 @@ class _FileMover:
 
     def rollback(self):
         """Reverse all renames that have been performed."""
+        # Permission bits are changed after the file reached its final path and
+        # no later rename moves it, so they are restored first.
+        for path, mode in reversed(self.past_modes):
+            try:
+                os.chmod(path, mode)
+            except OSError:
+                pass
+        self.past_modes = None
         for from_, to in reversed(self.past_renames):
             try:
                 os.rename(to, from_)
